@@ -104,6 +104,35 @@ def burst_plans(r, tier, big=True):
     return out
 
 
+def accept_events(toks, k):
+    """burst plan -> event list of the listener model (Khttp/Model/Accept.lean): connection 0 arrives alone; connections 1..k-1
+    arrive while the loop is held inside the set-up hook of connection 0, i.e. inside the accept loop, right after the first accept.
+    a = arrive, r = listener event harvested (batch token with member L), x = accept returned a connection (AC / AF),
+    e = the accept loop ended (next loop-thread token after the listener's turn)."""
+    ev = ["a"]
+    in_loop, before, n_acc = False, 0, 0
+    for t in toks:
+        if t.startswith("B") and t != "BE":
+            if in_loop:
+                ev.append("e"); in_loop = False
+            members = t[1:].split("+")
+            if "L" in members:
+                ev.append("r"); in_loop = True
+                before = members.index("L")
+            continue
+        if re.fullmatch(r"A[CF]\d+", t):
+            ev.append("x"); n_acc += 1
+            if n_acc == 1:
+                ev += ["a"] * (k - 1)
+            continue
+        if in_loop and (re.fullmatch(r"L[KFD]\d+", t) or t in ("LW", "BE", "ST")):
+            if before > 0 and t != "BE":
+                before -= 1            # an event of the batch that is handled before the listener's turn
+            else:
+                ev.append("e"); in_loop = False
+    return ev
+
+
 def canon(ev, ports):
     """raw hook events -> model trace tokens (connection ids in accept order; WT hoisted to the dequeue point)"""
     port2c = {}
@@ -280,6 +309,7 @@ def run(pid):
             lines = [replay["case"]]; plans = [None]
         impl = C.run_sharded(ctx["kimpl"], lines, shards=min(C.NCPU, 8))
         traces = []
+        accept_lines = []
         for (plan, c, a) in zip(plans, lines, impl):
             o.evaluations += 1
             d = parse(a)
@@ -294,6 +324,8 @@ def run(pid):
                 o.extra["known_class_spurious_dispatch_traces"] = o.extra.get("known_class_spurious_dispatch_traces", 0) + 1
             else:
                 traces.append((c, tl))
+            if plan is not None and plan[2] and plan[2][0] == "H" and ctx.get("have_model"):
+                accept_lines.append((c, "ACCEPT cap=- ev=" + ",".join(accept_events(toks, plan[4])), plan[4]))
             if len(toks) > 12:
                 o.nontrivial.add(",".join(toks))
             if len(o.samples) < 3:
@@ -365,6 +397,21 @@ def run(pid):
                 o.mismatches.append({"case": c, "impl": tl[:1500], "model": m})
         o.extra["traces_validated_against_impl"] = ok
         o.extra["traces_total"] = len(traces)
+        # listener side (Khttp/Model/Accept.lean): the accept rounds of the burst plans replayed through the model of the edge-triggered
+        # listener + accept loop.  Not an execution of the model (an accept round that ends while connections are queued) = broken
+        # correspondence; an execution that ends with queued connections nobody will look at = stranded connections.
+        if accept_lines:
+            am = C.run_sharded(ctx["kmodel"], [l for _, l, _ in accept_lines])
+            okc = 0
+            for (c, l, k), m in zip(accept_lines, am):
+                _, d = kv(m)
+                if m.startswith("OK") and d.get("stranded") == "0" and d.get("backlog") == "0" and d.get("accepted") == str(k):
+                    okc += 1
+                elif m.startswith("OK") and pid == "C14" and len(o.violations) < 20:
+                    o.violations.append({"case": c, "impl": l[:600], "model": m, "why": "listener: %s of %d connections accepted, %s left in the listen queue (stranded=%s)" % (d.get("accepted"), k, d.get("backlog"), d.get("stranded"))})
+                elif not m.startswith("OK") and len(o.mismatches) < 10:
+                    o.mismatches.append({"case": c, "impl": l[:1500], "model": m})
+            o.extra["accept_rounds_validated_against_listener_model"] = okc
     return run_
 
 
@@ -377,9 +424,9 @@ RULE = ("EPOLL scenarios on the real serve_epoll: 40 (quick) / 1500 (thorough) p
         "The hook trace (accept, batches, per-event outcome, dequeue, re-arm, DEL, teardown, closed, reaper) is replayed through the model's step?. distinct_nontrivial = distinct canonical traces with > 12 events.")
 ASSUME = ["level-triggered epoll, syscalls synchronise, mpsc FIFO (modelled)", "handlers terminate; scheduling/fairness of the OS not modelled: interleavings are those the scenarios provoke (partial for 'every interleaving' on the real code)",
           "liveness ('eventually dispatched') holds under the fairness assumptions F1-F4 stated in Props/C14; the unconditional form is refuted (known finding K14-spurious-dispatch)"]
-register("C14", lean=["Khttp.Props.C14", "Khttp.Props.C14Skeleton"], run=run("C14"), rule=RULE, assumptions=ASSUME, search=False, known_check=known_c14,
+register("C14", lean=["Khttp.Props.C14", "Khttp.Props.C14Accept", "Khttp.Props.C14Skeleton"], run=run("C14"), rule=RULE, assumptions=ASSUME, search=False, known_check=known_c14,
          explanation="Theorems over the epoll transition system for any number of connections and workers (inductive invariant, 25 step kinds): one worker per connection, answers in arrival order, no lost wake-up, "
-                     "not stuck (conditional; the unconditional form is refuted by a spurious-dispatch trace). Tie: extracted skeleton of epoll.rs incl. memory orderings = annotated steps of the model (decide), "
+                     "not stuck (conditional; the unconditional form is refuted by a spurious-dispatch trace). Listener side (Model/Accept, Props/C14Accept): with the code's accept loop (drain until accept() fails) on the EDGE-triggered listener no reachable state strands a queued connection and the server always has an enabled step towards accepting it; every per-event cap k strands one (refuted variant).  Tie: extracted skeleton of epoll.rs incl. memory orderings = annotated steps of the model (decide), "
                      "trace conformance of the instrumented real server. Oracle: per-connection transcripts in order, no overlapping workers per connection.")
 register("C15", lean=["Khttp.Props.C15", "Khttp.Props.C14Skeleton"], run=run("C15"), rule=RULE, assumptions=ASSUME, search=False,
          explanation="Theorems: socket closed exactly once, record freed exactly once, no use after free (a record is queued for freeing only after EPOLL_CTL_DEL and freed only between batches), quiescent state holds "
